@@ -6,7 +6,17 @@
 
 use serde_json::json;
 
-use crate::crash::{self, ExecParams};
+use std::collections::BTreeSet;
+use std::sync::Arc;
+
+use raindb::{Batch, WriteOptions};
+
+use crate::crash::{self, ExecParams, Execution};
+use crate::director::{director, set_role};
+use crate::gen::{self, Config};
+use crate::report::show;
+use crate::session::{apply_to_map, AckRec, Map, Session, WriteOp};
+use crate::simfs::SimFs;
 use crate::report::CaseOut;
 use crate::rng::{mix, Rng};
 use crate::simfs::Replayer;
@@ -20,6 +30,9 @@ pub fn plan(tier: &str) -> u64 {
 }
 
 pub fn run_case(tier: &str, seed: u64, idx: u64) -> CaseOut {
+    if idx % 8 == 3 {
+        return run_concurrent_case(tier, seed, idx);
+    }
     let mut out = CaseOut::new();
     let mut rng = Rng::new(mix(&[seed, idx], "c02"));
     watch::set_case_limit(std::time::Duration::from_secs(3000));
@@ -115,5 +128,226 @@ pub fn run_case(tier: &str, seed: u64, idx: u64) -> CaseOut {
     out.sample = Some(json!({"family": "crash-sweep", "execution": exec.description, "crash_points": n + 1,
         "second_level_crash_points": second_level,
         "first_calls": exec.journal.iter().take(8).map(|e| e.op.describe()).collect::<Vec<_>>()}));
+    out
+}
+
+
+/// Several writers at once (every 8th case). Each writer owns a disjoint set of keys and applies
+/// batches of unique values to it while the others do the same, so group commits carry batches of
+/// several callers, and flushes and compactions run beside them. At a crash point `k` a writer's
+/// call is acknowledged (it returned before the k-th mutating call was over), not begun (it was
+/// issued after it), or in flight - at most one per writer. The recovered contents, restricted to
+/// one writer's keys, must be that writer's acknowledged state or that plus its whole in-flight
+/// batch; what the database holds after that is judged like any other recovered image.
+fn run_concurrent_case(tier: &str, seed: u64, idx: u64) -> CaseOut {
+    let mut out = CaseOut::new();
+    let mut rng = Rng::new(mix(&[seed, idx], "c02-concurrent"));
+    watch::set_case_limit(std::time::Duration::from_secs(3000));
+    let writers = rng.range(2, 4) as usize;
+    let per_writer = if tier == "quick" { rng.range(30, 50) } else { rng.range(50, 110) } as usize;
+    let cfg = Config {
+        memtable: *rng.pick(&[256usize, 512, 1024]),
+        file: *rng.pick(&[512u64, 2048]),
+        block: *rng.pick(&[32usize, 256]),
+        reuse: idx % 16 == 3,
+    };
+    let d = director();
+    d.reset(rng.next_u64());
+    let fs = SimFs::from_image(&dbutil::root_image());
+    fs.record_journal(true);
+    let mut sess = Session::new(fs.clone(), cfg);
+    let m0 = fs.mut_count();
+    if let Err(e) = sess.open() {
+        out.inconclusive(format!("degenerate execution: open failed: {e}"));
+        return out;
+    }
+    let open_end = fs.mut_count();
+    let db = sess.db_arc();
+    let mut handles = vec![];
+    for t in 0..writers {
+        let db = db.clone();
+        let fs = fs.clone();
+        let mut trng = Rng::new(mix(&[seed, idx, t as u64], "c02-writer"));
+        handles.push(
+            std::thread::Builder::new()
+                .name(format!("c02-writer-{t}"))
+                .spawn(move || {
+                    set_role(t as u32 + 1);
+                    let mut acks: Vec<AckRec> = vec![];
+                    let mut counter = 0u64;
+                    for _ in 0..per_writer {
+                        watch::tick();
+                        let n = if trng.chance(0.4) { 1 } else { trng.range(2, 14) as usize };
+                        let mut ops: Vec<WriteOp> = vec![];
+                        for _ in 0..n {
+                            let k = format!("w{t}-{:02}", trng.below(24)).into_bytes();
+                            if trng.chance(0.2) {
+                                ops.push((k, None));
+                            } else {
+                                counter += 1;
+                                let len = if trng.chance(0.02) { 34_000 } else { trng.range(10, 60) as usize };
+                                ops.push((k, Some(gen::tagged_value(&mut trng, &format!("w{t}c{counter}:"), len))));
+                            }
+                        }
+                        let mut batch = Batch::new();
+                        for (k, v) in &ops {
+                            match v {
+                                Some(v) => batch.add_put(k.clone(), v.clone()),
+                                None => batch.add_delete(k.clone()),
+                            };
+                        }
+                        let call_mut = fs.mut_count();
+                        let r = {
+                            let _g = watch::enter("write");
+                            db.apply(WriteOptions { synchronous: trng.chance(0.3) }, batch)
+                        };
+                        let ret_mut = fs.mut_count();
+                        let ok = r.is_ok();
+                        acks.push(AckRec { ops, ok, call_mut, ret_mut });
+                        if !ok {
+                            break;
+                        }
+                        if trng.chance(0.03) {
+                            let _g = watch::enter("compact_range");
+                            db.compact_range(None..None);
+                        }
+                    }
+                    acks
+                })
+                .unwrap(),
+        );
+    }
+    let per_thread: Vec<Vec<AckRec>> = handles.into_iter().map(|h| h.join().unwrap_or_default()).collect();
+    drop(db);
+    if per_thread.iter().any(|a| a.iter().any(|r| !r.ok)) {
+        out.inconclusive("degenerate execution: a write was refused without any fault".to_string());
+        sess.close();
+        return out;
+    }
+    sess.wait_quiescent(std::time::Duration::from_secs(10));
+    sess.close();
+    let journal = fs.take_journal();
+    let n = journal.len();
+    let mut universe: BTreeSet<Vec<u8>> = BTreeSet::new();
+    for a in per_thread.iter().flatten() {
+        for (k, _) in &a.ops {
+            universe.insert(k.clone());
+        }
+    }
+    let description = json!({"writers": writers, "batches_per_writer": per_writer, "config": cfg.describe(), "mutating_fs_calls": n,
+        "client_writes": per_thread.iter().map(|a| a.len()).sum::<usize>()});
+    let exec = Execution { journal, acks: vec![], opens: vec![(m0, open_end, cfg)], universe: universe.clone(), final_cfg: cfg,
+        description: description.clone(), degenerate: None };
+    let mut replayer = Replayer::new(&dbutil::root_image());
+    let mut nontrivial_points = 0u64;
+    let mut several_in_flight = 0u64;
+    let mut in_flight_recovered = 0u64;
+    for k in 0..=n {
+        watch::tick();
+        let phase = if k == 0 { "before-anything".to_string() } else { exec.phase_of(k - 1) };
+        let image = replayer.image();
+        let ctx = json!({"execution": description, "family": "concurrent-writers", "crash_after_mutating_call": k, "of": n,
+            "last_call_before_crash": if k > 0 { exec.journal[k - 1].op.describe() } else { "-".to_string() }});
+        // what each writer may find
+        let mut alternatives: Vec<(Map, Option<Map>)> = vec![];
+        for acks in &per_thread {
+            let mut acked = Map::new();
+            let mut with = None;
+            for a in acks {
+                if a.ret_mut <= k as u64 {
+                    apply_to_map(&mut acked, &a.ops);
+                } else {
+                    if a.call_mut < k as u64 {
+                        let mut m = acked.clone();
+                        apply_to_map(&mut m, &a.ops);
+                        with = Some(m);
+                    }
+                    break;
+                }
+            }
+            alternatives.push((acked, with));
+        }
+        let flying = alternatives.iter().filter(|(_, w)| w.is_some()).count();
+        if flying >= 2 {
+            several_in_flight += 1;
+        }
+        // first look: which alternative did every writer get?
+        let probe_fs = SimFs::from_image(&image);
+        let mut probe = Session::new(probe_fs, cfg);
+        probe.fill_cache = false;
+        out.add("images_recovered", 1);
+        if let Err(e) = probe.open() {
+            out.violate(format!("C02/open-failed-after-crash/{phase}"), json!({"ctx": ctx, "error": e, "files": image.listing()}));
+            break;
+        }
+        let got: Map = match probe.scan(None) {
+            Ok(entries) => entries.into_iter().collect(),
+            Err(e) => {
+                out.violate(format!("C02/scan-error-after-recovery/{phase}"), json!({"ctx": ctx, "error": e}));
+                probe.close();
+                break;
+            }
+        };
+        probe.close();
+        let mut reference = Map::new();
+        let mut bad = false;
+        for (t, (acked, with)) in alternatives.iter().enumerate() {
+            let prefix = format!("w{t}-").into_bytes();
+            let mine: Map = got.iter().filter(|(k, _)| k.starts_with(&prefix)).map(|(k, v)| (k.clone(), v.clone())).collect();
+            if mine == *acked {
+                reference.extend(acked.clone());
+            } else if with.as_ref() == Some(&mine) {
+                in_flight_recovered += 1;
+                reference.extend(mine);
+            } else {
+                let class = if acked.iter().any(|(k, v)| mine.get(k) != Some(v) && with.as_ref().map_or(true, |w| w.get(k) != mine.get(k))) {
+                    "acknowledged-write-lost-or-replaced"
+                } else if with.is_some() {
+                    "in-flight-batch-applied-partially-or-something-never-written"
+                } else {
+                    "contains-something-never-acknowledged"
+                };
+                let diff: Vec<String> = universe.iter().filter(|k| k.starts_with(&prefix) && mine.get(*k) != acked.get(*k)).take(6)
+                    .map(|k| format!("{}: acked {:?} got {:?}", show(k), acked.get(k).map(|v| show(&v[..v.len().min(16)])), mine.get(k).map(|v| show(&v[..v.len().min(16)])))).collect();
+                out.violate(format!("C02/concurrent-writers/contents-after-recovery/{class}/{phase}"),
+                    json!({"ctx": ctx, "writer": t, "differences_from_acknowledged_state": diff, "writer_had_a_call_in_flight": with.is_some(), "files": image.listing()}));
+                bad = true;
+                break;
+            }
+        }
+        if !bad && got.len() != reference.len() {
+            let foreign: Vec<String> = got.keys().filter(|k| !reference.contains_key(*k)).take(5).map(|k| show(k)).collect();
+            out.violate(format!("C02/concurrent-writers/contents-after-recovery/contains-something-never-acknowledged/{phase}"), json!({"ctx": ctx, "keys": foreign}));
+            bad = true;
+        }
+        if bad {
+            if out.violations.len() >= 4 {
+                break;
+            }
+        } else {
+            // second look: gets agree with the scan, the database takes writes, they survive a reopen
+            let (judged, _) = crash::recover_and_judge(&mut out, &image, cfg, &reference, None, &universe, "C02", &phase, &ctx, &mut rng, false);
+            out.add(&format!("crash_points.{phase}"), 1);
+            if judged.ok && k > 0 && crash::is_persistent_change(&exec.journal[k - 1].op) && !phase.ends_with("other") {
+                nontrivial_points += 1;
+                out.set_add("phases", phase.clone());
+            }
+            if out.violations.len() >= 4 {
+                break;
+            }
+        }
+        if k < n {
+            replayer.step(&exec.journal[k]);
+        }
+    }
+    out.distinct_extra = nontrivial_points;
+    out.add("executions", 1);
+    out.add("concurrent_writer_executions", 1);
+    out.add("crash_points_with_several_calls_in_flight", several_in_flight);
+    out.add("writers_recovered_with_their_in_flight_batch", in_flight_recovered);
+    out.add("journal_length", n as u64);
+    out.sample = Some(json!({"family": "crash-sweep/concurrent-writers", "execution": description, "crash_points": n + 1,
+        "crash_points_with_several_calls_in_flight": several_in_flight}));
+    let _ = Arc::new(0);
     out
 }
